@@ -84,6 +84,7 @@ def bind_ast(ctr):
         defaults[x.arg] = v
   if a.vararg or a.kwarg:
     ctr.has_var = True
+  ctr.is_static = any(isinstance(d, ast.Name) and d.id == 'staticmethod' for d in node.decorator_list)
   ctr.params = params
   dd = dict(defaults)
   dd.update(ctr.defaults)
